@@ -396,7 +396,8 @@ impl Check for Forwarder {
                     }
                 }
             }
-            st.state(&(kind, m.allowed.len(), m.trap, m.allow.values().filter(|v| v.0 > 0 && v.1 >= m.now).count()));
+            let fwd_class = match s { Step::Forward { fee, max, exp_rel, tamper, user_signs, relayer_signs, .. } => Some(((*fee).cmp(max) as i8, (*fee).signum() as i8, (*exp_rel).signum() as i8, *tamper as u8, *user_signs, *relayer_signs)), _ => None };
+            st.state(&(kind, cfg.permissioned, m.allowed.len(), m.trap, m.allow.values().filter(|v| v.0 > 0 && v.1 >= m.now).count(), fwd_class));
         }
         Ok(())
     }
